@@ -501,7 +501,10 @@ class GPT:
             if instr[offset:offset + 2] == b'\x00\x00':
                 break
             part = GPTPartHeader()
-            offset += part.parse(instr[offset:])
+            # Only hand over the entry itself; a copy of all of the rest of
+            # the data for each of the entries takes quadratic time, and the
+            # number of entries comes from the ISO.
+            offset += part.parse(instr[offset:offset + struct.calcsize(GPTPartHeader.FMT)])
             self.parts.append(part)
 
         self._initialized = True
@@ -547,7 +550,10 @@ class GPT:
             if instr[offset:offset + 2] == b'\x00\x00':
                 break
             part = GPTPartHeader()
-            offset += part.parse(instr[offset:])
+            # Only hand over the entry itself; a copy of all of the rest of
+            # the data for each of the entries takes quadratic time, and the
+            # number of entries comes from the ISO.
+            offset += part.parse(instr[offset:offset + struct.calcsize(GPTPartHeader.FMT)])
             self.parts.append(part)
 
         self._initialized = True
